@@ -12,6 +12,15 @@
 //!       lazily loaded tables or fails to deliver them, so that their load fails while Font::new
 //!       succeeds) and `collide` (a font whose GSUB and/or GPOS is built from the layout the CASE
 //!       carries: > 64 KiB, Coverage/ClassDef tables at positions congruent mod 2^16 and 2^8).
+//!       Round 2: `img` (fonts carrying two to four embedded-image tables - SVG, CBDT/CBLC, sbix, EBDT/EBLC, see
+//!       c03_purity/imgenc.rs - under sequences of image filters and image queries), `fill` (one long history that
+//!       fills a keyed cache far beyond any plausible capacity: (script, language, mask) keys on a synthesized GSUB
+//!       with a `frac` feature, languages under the Indic / Arabic shapers of repository fonts, hundreds of lookups
+//!       with a Coverage each) and `scopes` (the subject is a pair of ReadCaches read through scopes derived by
+//!       offset / offset_length / read_scope / nested windows).  `record` also runs long incremental histories of
+//!       ever new keys with one Font living through all of them.  Facts used for vacuity guards (`input_facts`,
+//!       `*_selfcheck`) are computed from the calls and from the built bytes only; `*_fresh_results` depend on
+//!       what allsorts answers and are judged by the driver after the violations.
 //!   c03_purity repeat <seed> <out.ndjson>
 //!       pure operations (subset, instance, whole_font, WOFF/WOFF2 decoding) run twice in this
 //!       process; digests recorded per run (the driver also runs this in a second process).
@@ -760,14 +769,14 @@ fn damage_bases(all: &[FontCfg]) -> Vec<FontCfg> {
     all.iter().filter(|c| ["synth-all", "synth-morx", "opensans", "lohit-hi", "sbix-dupe", "svg-gzipped"].contains(&c.name.as_str())).cloned().collect()
 }
 
-/// The keys font of MC_FontCache (one single substitution per feature, both language systems have them all),
+/// The keys font of MC_FontCache (one single substitution per feature, the second language system has every second one),
 /// for the random fill histories.
 fn keys_desc() -> Value {
     let feats = ["frac", "vert", "rvrn", "liga", "ccmp", "calt", "clig", "rlig", "locl", "smcp", "onum", "lnum", "tnum", "zero"];
     let content = ["12", "A", "B", "C", "D", "E", "F", "G", "H", "I", "J", "K", "L", "M"];
     let lookups: Vec<Value> = feats.iter().zip(content.iter()).enumerate().map(|(j, (f, c))| {
         let sub = 2560 + 32 * j;
-        json!({"tbl": "GSUB", "idx": j, "feat": f, "typ": "single", "ext": false, "sub": sub, "l2": true,
+        json!({"tbl": "GSUB", "idx": j, "feat": f, "typ": "single", "ext": false, "sub": sub, "l2": j % 2 == 1,
                "objs": [{"kind": "cov", "pos": sub + 8, "rel": 8, "content": c}], "nested": []})
     }).collect();
     json!({"fam": "fill", "damaged": [], "lookups": lookups, "imgs": 0, "sub": "keys"})
@@ -1021,24 +1030,30 @@ fn run_both(cfg: &FontCfg, history: &[Call], probe: &Call) -> (String, String) {
 }
 
 
+/// three characters 0-9 A-Z that are different for different n < 46656
+fn base36(n: u32) -> String {
+    let d = |k: u32| std::char::from_digit(k % 36, 36).unwrap().to_ascii_uppercase();
+    [d(n / 1296), d(n / 36), d(n)].iter().collect()
+}
+
 /// Script identity of the model -> tag: s1 / s2 are the font's two scripts, s<n> is a script nobody has heard of
 /// (ScriptType::Default, falls back to the DFLT script of the font).
 fn script_of(id: &str, cfg: &FontCfg) -> u32 {
     match id.strip_prefix('s').and_then(|n| n.parse::<u32>().ok()) {
         Some(1) | None => cfg.scripts[0],
         Some(2) => cfg.scripts[1],
-        Some(n) => tag_u32(&format!("z{:03}", n % 1000)),
+        Some(n) => tag_u32(&format!("z{}", base36(n))),
     }
 }
 
-/// Language identity of the model -> tag: l0 no language, l1 the font's language, l2 the second language system
-/// (TRK) of the synthesized layouts, l<n> a language nobody has heard of (falls back to the default LangSys).
+/// Language identity of the model -> tag: l0 no language, l1 the font's language, l2 l6 l10 .. the second language
+/// system (TRK) of the synthesized layouts, any other l<n> a language nobody has heard of (default LangSys).
 fn lang_of(id: &str, cfg: &FontCfg) -> Option<u32> {
     match id.strip_prefix('l').and_then(|n| n.parse::<u32>().ok()) {
         Some(0) => None,
         Some(1) | None => Some(cfg.lang),
-        Some(2) => Some(tagv("TRK ")),
-        Some(n) => Some(tag_u32(&format!("Q{:03}", n % 1000))),
+        Some(n) if n % 4 == 2 => Some(tagv("TRK ")),
+        Some(n) => Some(tag_u32(&format!("Q{}", base36(n)))),
     }
 }
 
@@ -1070,7 +1085,8 @@ fn concretise(c: &Value, cfg: &FontCfg) -> Call {
             Call::MapGlyphs { text, script: cfg.scripts[0], required: s("pres") == "Req" }
         }
         "Shape" => {
-            let feats: Vec<u32> = c["feats"].as_array().map(|a| a.iter().map(|f| tag_u32(f.as_str().unwrap())).collect()).unwrap_or_default();
+            // `mfeats` (when given): the features the caller names; `feats`: those of them that are in force
+            let feats: Vec<u32> = c.get("mfeats").unwrap_or(&c["feats"]).as_array().map(|a| a.iter().map(|f| tag_u32(f.as_str().unwrap())).collect()).unwrap_or_default();
             // fonts whose layout the model knows: the mask / custom list is the set of features the call names
             let collide = cfg.fam == "collide" || (cfg.fam == "fill" && !cfg.feats.is_empty());
             Call::Shape {
@@ -1288,10 +1304,11 @@ const RVRN_BIT: u64 = FeatureMask::RVRN.bits();
 
 /// The (script, language, mask) keys a shaping call with Features::Mask creates in lookups_index on a font that
 /// supports every feature of the mask (the synthesized keys font): RVRN is taken out, FRAC makes two keys.
-fn mask_keys(c: &Call) -> Vec<(u32, Option<u32>, u64)> {
+fn mask_keys(c: &Call, l2mask: u64) -> Vec<(u32, Option<u32>, u64)> {
     match c {
         Call::Shape { script, lang, mask, custom: false, .. } => {
-            let m = mask & !RVRN_BIT;
+            // under the second language system (TRK) only its features are supported
+            let m = mask & !RVRN_BIT & if *lang == Some(tag_u32("TRK ")) { l2mask } else { u64::MAX };
             if m & FRAC_BIT != 0 { vec![(*script, *lang, m), (*script, *lang, m & !FRAC_BIT)] } else { vec![(*script, *lang, m)] }
         }
         _ => vec![],
@@ -1329,10 +1346,14 @@ impl InputFacts {
                 let sub = cfg.desc["sub"].as_str().unwrap_or("").to_string();
                 let n = match sub.as_str() {
                     "keys" => {
-                        let keys: std::collections::BTreeSet<_> = history.iter().flat_map(mask_keys).collect();
+                        let l2mask = cfg.l2feats.iter().fold(0u64, |m, f| m | FeatureMask::from_tag(tag_u32(f)).bits());
+                        let keys: std::collections::BTreeSet<_> = history.iter().flat_map(|c| mask_keys(c, l2mask)).collect();
+                        let pairs: std::collections::BTreeSet<_> = keys.iter().map(|(s, l, _)| (*s, *l)).collect();
+                        let e = self.fill_keys.entry("keys:(script,language)".to_string()).or_default();
+                        *e = (*e).max(pairs.len());
                         if keys.len() >= 100 {
                             self.frac_probes_new_key_after_100 += fan.iter().filter(|c| {
-                                let k = mask_keys(c);
+                                let k = mask_keys(c, l2mask);
                                 k.len() == 2 && k.iter().all(|x| !keys.contains(x))
                             }).count();
                         }
@@ -1685,6 +1706,7 @@ fn random_key_call(rng: &mut StdRng, cfg: &FontCfg) -> Call {
     let lang = match rng.gen_range(0..5) {
         0 => None,
         1 => Some(cfg.lang),
+        2 if !cfg.l2feats.is_empty() => Some(tagv("TRK ")),
         _ => Some(tag_u32(&format!("Q{:03}", rng.gen_range(3..60)))),
     };
     let special = (FeatureMask::FRAC | FeatureMask::RVRN | FeatureMask::VRT2_OR_VERT).bits();
